@@ -35,7 +35,7 @@ FORMATISH = ["%", "{", "}", "$", "#", "*", "?", "[", "(", "&", "|", "<", ">", "=
 OTHER = FORMATISH + ["a", "\xe9", "\U0001f600", "\x00", ".", "x", "Z", "~", "漢", "e", "−", "'", "\"", "\\", "́",
          "﻿", "{"]
 WORDS = ["None", "null", "True", "False", "nan", "NaN", "inf", "Infinity", "undefined", "NULL"]
-IVALS = [-1, 0, 1, 255, 256, 1000, 2147483647, -2147483647, 17, 254]
+IVALS = [-1, 0, 1, 2, 3, 4, 5, 255, 256, 1000, 2147483647, -2147483647, 17, 254]
 
 
 class Conc:
